@@ -67,11 +67,21 @@ FIXED_RESET_HISTORIES = [
 ]
 
 
+def _parses(md) -> bool:
+    """the block chain can always make progress (without the paragraph rule the block loop does not terminate - C01's business)"""
+    try:
+        return "paragraph" in md.get_active_rules()["block"]
+    except Exception:  # noqa: BLE001
+        return False
+
+
 def _behaviour(md):
     out = []
+    if not _parses(md):
+        return out
     for src in RESET_PROBES:
         try:
-            out.append([t.as_dict() for t in guarded(md.parse, src, limit=4)])
+            out.append([t.as_dict() for t in guarded(md.parse, src, limit=3)])
         except BaseException as e:  # noqa: BLE001
             out.append(type(e).__name__)
     return out
